@@ -143,6 +143,13 @@ def check(ctx):
     pd_ok = (XALL[0] == "call" and XALL[1][0] == "attr" and XALL[1][2] == "prepare_data" and XALL[1][1] == fz_tr)
     ctx.require(pd_ok, f"{f.where()}: design matrix is not featurizer.prepare_data(..) of the same featurizer")
     allu = XALL[2][0]
+    # the frame handed to the featurizer may carry the "these rows are predicted, not fitted" mark on the calibration rows
+    # (frame.iloc[train_rows:n_train, <reporting>] = 0, C16.R6): a column assignment, the rows and their order are those below it
+    marked = None
+    if allu[0] == "setattr" and allu[2] == "iloc" and allu[3][0] == "setitem" and allu[3][1] == ("attr", allu[1], "iloc"):
+        marked = allu[3]
+        allu = allu[1]
+    ctx.extra["calibration_rows_marked_as_holdout"] = marked is not None
     order_ok = (allu[0] == "call" and ir.show(allu[1]).endswith("concat") and allu[2][0] == ("list", (SHUF, NU)))
     ctx.ob("C04.R6.matrix-order", f"{f.qualname}|design matrix rows = [shuffled reporting, nonreporting]", order_ok, f.where(),
            "the design matrix is built from the shuffled reporting units followed by the nonreporting units" if order_ok
